@@ -619,6 +619,10 @@ func runC03CloseInsideSend(transport, cause string, r *rep.Report) (key, msg str
 func TestC03(t *testing.T) {
 	r := rep.New(t, "C03")
 	defer r.Flush()
+	if r.Lane == 1%r.Lanes {
+		// peers that have stopped reading, then the session ends (real time, judged at rest)
+		stalledEndings(r, r.N(4, 64))
+	}
 	// journalled cases that have not ended after a minute of real time are examined (rep.Guard)
 	r.Guard(60 * time.Second)
 	r.Rule("fault enumeration: every ordered pair (and single, and triple in thorough) of close causes {peer disconnect, transport error, heartbeat expiry, Close(false), Close(true), Server.Close, parse error} fired at one virtual instant on every transport, with the goroutines that passed the closed-state test held at the hook windows (socket.OnClose.window, socket.Close.window, server.Handshake.afterNewSocket) and released in every order; plus cause-free histories, plus an upgrade packet that lands after the state became closed while an application close listener is still running, and a close cause that completes while Send is between its state test and its flush; oracle: per-session trace automaton (forward-only state writes, exactly one close event with an attributable reason, no session event after close, connection event only for open sessions, Send after close silent) and the registry invariant; distinct = (transport, causes, window, release order, number of goroutines held)")
